@@ -633,7 +633,7 @@ func wrCorpus() []wrCase {
 func wrLeg(c *core.Ctx, quick, thorough int) {
 	core.RunLeg(c, core.Leg[wrCase]{
 		Name: "Wr", Kind: "correspondence(writer)",
-		Rule: "patterns: 20% quantifier/numbering/conditional/balancing shapes ({0,0} {n} {n,} {0,1} {n,m} * + ? greedy and lazy over literals, classes, groups, captures, alternations, lookarounds, atomic groups; sparse and explicit group numbers, named groups, balancing groups, both kinds of conditionals with and without an else branch), 10% literals harvested from the repository's tests, 10% towers / random trees of the C13 generator, 10% random ASTs of the C01 fragment, 50% random ASTs of the full syntax (nullable loops, \\G, balancing groups, Unicode classes, conditionals); option sets from {i,m,s,n,x,r,ECMAScript,RE2,Unicode} and MaintainCaptureOrder. For each: syntax.Parse; the root and (Captop, Capnumlist, Caps, RightToLeft) go to the Lean model Writer.write, whose answer must equal syntax.Write(tree) in Codes (word for word), Strings, Sets (Hash bytes, order), TrackCount, Capsize, Caps, RightToLeft, CaptureSlotInUse and QuickCodes; the driver also evaluates treeWf (hypothesis of emit_wf) and wfProg of both programs. Oracles on the Go program alone: jumps land on instruction boundaries, table operands name the node's own string/set, TrackCount counts backtracking opcodes. non-trivial = more than two node types in the tree; distinct by (options, pattern)",
+		Rule:   "patterns: 20% quantifier/numbering/conditional/balancing shapes ({0,0} {n} {n,} {0,1} {n,m} * + ? greedy and lazy over literals, classes, groups, captures, alternations, lookarounds, atomic groups; sparse and explicit group numbers, named groups, balancing groups, both kinds of conditionals with and without an else branch), 10% literals harvested from the repository's tests, 10% towers / random trees of the C13 generator, 10% random ASTs of the C01 fragment, 50% random ASTs of the full syntax (nullable loops, \\G, balancing groups, Unicode classes, conditionals); option sets from {i,m,s,n,x,r,ECMAScript,RE2,Unicode} and MaintainCaptureOrder. For each: syntax.Parse; the root and (Captop, Capnumlist, Caps, RightToLeft) go to the Lean model Writer.write, whose answer must equal syntax.Write(tree) in Codes (word for word), Strings, Sets (Hash bytes, order), TrackCount, Capsize, Caps, RightToLeft, CaptureSlotInUse and QuickCodes; the driver also evaluates treeWf (hypothesis of emit_wf) and wfProg of both programs. Oracles on the Go program alone: jumps land on instruction boundaries, table operands name the node's own string/set, TrackCount counts backtracking opcodes. non-trivial = more than two node types in the tree; distinct by (options, pattern)",
 		Corpus: wrCorpus(), N: c.N(quick, thorough), Gen: wrGen, Check: wrCheck, Batch: 1000,
 	})
 }
